@@ -61,7 +61,7 @@ def gen_case(rng, i, tier):
                 "axis": rng.choice("XY"), "to": rng.choice(["left", "right"]), "rule": rng.choice(gen.RULES),
                 "chunks": rand_chunks(rng, sizes, 0.8), "scheds": scheds, "dseed": rng.getrandbits(31),
                 "lazy_coord": None if lazy_coord is None else dict(lazy_coord, dims=["face", "y", "x", "xl", "yl", "xr", "yr"][: 3 if lazy_coord["ndims"] == 2 else 1])}
-    layout = gen.random_layout(rng, nax=rng.randint(1, 2), nmin=2, nmax=7, p=0.55, at_least=2)
+    layout = gen.random_layout(rng, nax=rng.randint(1, 2), nmin=2, nmax=gen.deep(rng, tier, 7, 12), p=0.55, at_least=2)
     axn = [a["name"] for a in layout["axes"]]
     cm = gen.layout_coords(layout)
     sizes_all = gen.layout_sizes(layout)
